@@ -15,7 +15,11 @@ TInit == /\ KInit
 Props == /\ Tag("C03.no-silent-loss", NoSilentLoss') /\ Tag("C03.exactly-once", ExactlyOnce')
          /\ Tag("C03.sent-in-own-frame", SentInOwnFrame') /\ Tag("C03.stale-only-if-passed", StaleOnlyIfPassed')
 
-TSockStart == IsEv("sockStart") /\ SockStart(Ev.op, Ev.m) /\ Adv
+\* the socket thread may perform several operations one after the other
+TSockStart == /\ IsEv("sockStart") /\ spc \in {"idle", "end"}
+              /\ sop' = Ev.op /\ smsg' = Ev.m /\ spc' = "s1"
+              /\ UNCHANGED <<run, q, lock, tpc, tfn, emit, drop, accepted, fate>>
+              /\ Adv
 TSockEnd == /\ IsEv("sockEnd") /\ spc \in {"acc", "done"}
             /\ Tag("C03.accepted-flag", Ev.acc = (spc = "acc"))
             /\ spc' = "end" /\ UNCHANGED <<run, q, lock, sop, smsg, tpc, tfn, emit, drop, accepted, fate>> /\ Adv
